@@ -3,6 +3,7 @@
   Property theorems only; helper lemmas live in Proofs/C11_Lemmas.lean.
 -/
 import Proofs.C11_Lemmas
+import Proofs.C04_Chains
 namespace Mammoth
 
 /-! ### reading the formatting of a run -/
@@ -212,5 +213,74 @@ example : readBoolElem S!"w:b" [.elem S!"w:b" [(S!"w:val", S!"0")] []] = false :
 example : readBoolElem S!"w:b" [.elem S!"w:b" [] []] = true := by decide
 example : readUnderline [.elem S!"w:u" [] []] = false := by decide
 example : readUnderline [.elem S!"w:u" [(S!"w:val", S!"single")] []] = true := by decide
+
+/-! ### the formatting of one run never extends over the text of another run
+
+Stated on the HTML forest `ns` that the conversion produces (each run's nodes wrapped in that run's own inline
+elements, `C11_visit_run`) and the forest `collapse (stripEmpty ns)` that is written out (`render`).
+`leaves`: the text nodes / force-write markers in order, each with the tags of its enclosing elements,
+outermost first (Proofs/C04_Chains.lean). -/
+
+/-- FORMATTING IS LOCAL.  The leaves of the written forest are exactly the contentful leaves of `ns` (non-empty
+    text, force-write markers), in order and unchanged, plus separator text leaves (`SepIn`: the `:separator`
+    of a non-fresh tag of `ns`; inline formatting elements have none).  The chain of elements around each
+    leaf has the SAME LENGTH as in `ns` and, position by position, the output element has the attributes of
+    the leaf's own wrapper at that depth and — when the tag names of `ns` are linked transitively
+    (`namesTrans`, e.g. no `|` alternatives among the tags) — its name is that wrapper's name or one of its
+    alternatives.  So the wrappers around a run's text in the output are that run's own wrappers, whatever
+    its neighbours are: a neighbour's `strong`/`em`/… never encloses it, and none of its own is lost. -/
+theorem C11_formatting_local (ns : List Node) (h : namesTrans (tagsOfL ns) = true) :
+    LeafEmb tagStep (SepIn ns) ((leaves ns).filter leafKept) (leaves (collapse (stripEmpty ns))) := by
+  rw [← leaves_stripEmpty]
+  exact leaves_collapse_step ns (stripEmpty ns)
+    (by rw [stripEmpty, stripList_eq]; exact allTagsL_prune ns (allTagsL_tagsOfL ns)) h
+
+/-- the same for EVERY forest, each position related by finitely many merge steps (`TagReach`; attributes are
+    always identical, `TagReach.attrs`) -/
+theorem C11_formatting_local_reach (ns : List Node) :
+    LeafEmb TagReach (SepIn ns) ((leaves ns).filter leafKept) (leaves (collapse (stripEmpty ns))) := by
+  rw [← leaves_stripEmpty]
+  exact leaves_collapse_reach ns (stripEmpty ns)
+    (by rw [stripEmpty, stripList_eq]; exact allTagsL_prune ns (allTagsL_tagsOfL ns))
+
+/-- leaf by leaf: a text leaf of the written forest that is not a separator is a text leaf of `ns`, and the
+    elements around it correspond one to one to its own wrappers in `ns`; conversely every non-empty text leaf
+    of `ns` is written under such a chain -/
+theorem C11_formatting_local_leaf (ns : List Node) (h : namesTrans (tagsOfL ns) = true) :
+    (∀ c' s, (c', Node.text s) ∈ leaves (collapse (stripEmpty ns)) →
+      SepIn ns (.text s) ∨ ∃ c, (c, Node.text s) ∈ leaves ns ∧ chainRel c c') ∧
+    (∀ c s, s ≠ [] → (c, Node.text s) ∈ leaves ns →
+      ∃ c', (c', Node.text s) ∈ leaves (collapse (stripEmpty ns)) ∧ chainRel c c') := by
+  have H := C11_formatting_local ns h
+  constructor
+  · intro c' s hm
+    rcases H.mem_right _ hm with hs | ⟨a, ha, hc, he⟩
+    · exact Or.inl hs
+    · obtain ⟨c, n⟩ := a
+      have hn : n = Node.text s := he
+      subst hn
+      exact Or.inr ⟨c, (List.mem_filter.mp ha).1, hc⟩
+  · intro c s hs hm
+    have hk : leafKept (c, Node.text s) = true := by
+      simp [leafKept, hasContent, hs]
+    obtain ⟨b, hb, hc, he⟩ := H.mem_left _ (List.mem_filter.mpr ⟨hm, hk⟩)
+    obtain ⟨c', n⟩ := b
+    have hn : Node.text s = n := he
+    subst hn
+    exact ⟨c', hb, hc⟩
+
+/-! non-vacuity: a bold run between two plain runs, and two bold runs that are merged -/
+private def strongT : Tag := { name := S!"strong", collapsible := true }
+private def emT : Tag := { name := S!"em", collapsible := true }
+private def c11_forest : List Node :=
+  [.text S!"a", .elem strongT [.text S!"b"], .elem strongT [.elem emT [.text S!"c"]], .elem emT [.text []],
+   .text S!"d"]
+example : namesTrans (tagsOfL c11_forest) = true := by decide
+example : (leaves c11_forest).filter leafKept =
+    [([], .text S!"a"), ([strongT], .text S!"b"), ([strongT, emT], .text S!"c"), ([], .text S!"d")] := by rfl
+example : leaves (collapse (stripEmpty c11_forest)) =
+    [([], .text S!"a"), ([strongT], .text S!"b"), ([strongT, emT], .text S!"c"), ([], .text S!"d")] := by rfl
+example : collapse (stripEmpty c11_forest) =
+    [.text S!"a", .elem strongT [.text S!"b", .elem emT [.text S!"c"]], .text S!"d"] := by rfl
 
 end Mammoth
